@@ -2,7 +2,7 @@
 //! DESIGN §4 C14 / C16.
 
 use crate::checks::{Case, Opts};
-use crate::exec::fnv_of;
+use crate::exec::{boundary_hash_of, fnv_of};
 use crate::report::*;
 use circular_buffer::CircularBuffer;
 use std::collections::HashMap;
@@ -49,6 +49,10 @@ pub enum IoAct {
     PushFront,
     PopBack,
     PopFront,
+    TryPushBack,
+    TryPushFront,
+    /// `Hash` through a hasher that is sensitive to how the input is split into `write` calls
+    HashIt,
 }
 impl IoAct {
     pub fn show(&self) -> String {
@@ -70,6 +74,9 @@ impl IoAct {
             IoAct::PushFront => "push_front".into(),
             IoAct::PopBack => "pop_back".into(),
             IoAct::PopFront => "pop_front".into(),
+            IoAct::TryPushBack => "try_push_back".into(),
+            IoAct::TryPushFront => "try_push_front".into(),
+            IoAct::HashIt => "hash".into(),
         }
     }
     pub fn name(&self) -> &'static str {
@@ -90,6 +97,9 @@ impl IoAct {
             IoAct::PushFront => "push_front",
             IoAct::PopBack => "pop_back",
             IoAct::PopFront => "pop_front",
+            IoAct::TryPushBack => "try_push_back",
+            IoAct::TryPushFront => "try_push_front",
+            IoAct::HashIt => "hash",
         }
     }
     pub fn parse(s: &str) -> Option<IoAct> {
@@ -103,6 +113,9 @@ impl IoAct {
             "push_front" => IoAct::PushFront,
             "pop_back" => IoAct::PopBack,
             "pop_front" => IoAct::PopFront,
+            "try_push_back" => IoAct::TryPushBack,
+            "try_push_front" => IoAct::TryPushFront,
+            "hash" => IoAct::HashIt,
             _ => {
                 if s.starts_with("write(") {
                     IoAct::Write(arg("write(")?)
@@ -155,7 +168,7 @@ pub fn io_alphabet(n: usize) -> Vec<IoAct> {
     for m in 0..=n + 1 {
         v.push(IoAct::ExtendRef(m));
     }
-    v.extend([IoAct::PushBack, IoAct::PushFront, IoAct::PopBack, IoAct::PopFront]);
+    v.extend([IoAct::PushBack, IoAct::PushFront, IoAct::PopBack, IoAct::PopFront, IoAct::TryPushBack, IoAct::TryPushFront]);
     v
 }
 
@@ -444,6 +457,15 @@ pub fn io_apply<const N: usize>(b: &mut B<N>, act: &IoAct, via: Via) -> IoObs {
         IoAct::PushFront => IoObs::Opt(b.push_front(fresh_bytes(&live, 1)[0])),
         IoAct::PopBack => IoObs::Opt(b.pop_back()),
         IoAct::PopFront => IoObs::Opt(b.pop_front()),
+        IoAct::TryPushBack => match b.try_push_back(fresh_bytes(&live, 1)[0]) {
+            Ok(()) => IoObs::Unit,
+            Err(x) => IoObs::Opt(Some(x)),
+        },
+        IoAct::TryPushFront => match b.try_push_front(fresh_bytes(&live, 1)[0]) {
+            Ok(()) => IoObs::Unit,
+            Err(x) => IoObs::Opt(Some(x)),
+        },
+        IoAct::HashIt => IoObs::Count(boundary_hash_of(&*b) as usize),
     }
 }
 
@@ -525,6 +547,19 @@ pub fn io_model(cap: usize, v: &mut Vec<u8>, act: &IoAct) -> Option<IoObs> {
             v.insert(0, x);
             Some(IoObs::Opt(r))
         }
+        IoAct::TryPushBack | IoAct::TryPushFront => {
+            let x = fresh_bytes(v, 1)[0];
+            if v.len() >= cap {
+                return Some(IoObs::Opt(Some(x)));
+            }
+            if matches!(act, IoAct::TryPushBack) {
+                v.push(x);
+            } else {
+                v.insert(0, x);
+            }
+            Some(IoObs::Unit)
+        }
+        IoAct::HashIt => None,
         IoAct::PopBack => Some(IoObs::Opt(v.pop())),
         IoAct::PopFront => Some(IoObs::Opt(if v.is_empty() { None } else { Some(v.remove(0)) })),
     }
@@ -848,23 +883,119 @@ pub fn c14_check<const N: usize>(_o: &Opts, rep: &mut Report) {
     }
 }
 
-/// C01's `Extend<&T>` (T: Copy) coverage: the byte-buffer space, judging only the deque actions.
-pub fn c01_extend_ref<const N: usize>(rep: &mut Report) {
+/// C04 on byte buffers, one case: `act` and a fixed follow-up sequence from the state reached by `r`, and from a
+/// buffer with equal contents built by `push_back` alone.  Some(description) if they can be told apart.
+pub fn c04_pair<const N: usize>(r: &[IoAct], act: &IoAct) -> Option<String> {
+    let via = default_via();
+    let follow = [IoAct::HashIt, IoAct::PopFront, IoAct::PushBack, IoAct::TryPushFront, IoAct::Read(1), IoAct::Write(N / 2 + 1), IoAct::Consume(1), IoAct::PopBack, IoAct::Write(N), IoAct::HashIt, IoAct::Read(N)];
+    let run = |mut b: Box<B<N>>| -> Vec<String> {
+        let mut out = vec![];
+        for a in std::iter::once(act).chain(follow.iter()) {
+            let o = match catch_unwind(AssertUnwindSafe(|| io_apply(&mut b, a, via))) {
+                Ok(IoObs::Bytes(s)) => {
+                    // fill_buf shows where as_slices splits (exempt); what it returns must still be a
+                    // non-empty prefix of the contents
+                    let c: Vec<u8> = b.iter().copied().collect();
+                    format!("fill_buf prefix={} empty={}", c.starts_with(&s), s.is_empty())
+                }
+                Ok(o) => format!("{:?}", o),
+                Err(p) => format!("PANIC {}", crate::panic_text(&p)),
+            };
+            if o.starts_with("PANIC") {
+                out.push(format!("{} -> {}", a.show(), o));
+                std::mem::forget(b);
+                return out;
+            }
+            out.push(format!("{} -> {} ; contents {:?}", a.show(), o, b.iter().copied().collect::<Vec<u8>>()));
+        }
+        out
+    };
+    let (b1, _) = rebuild::<N>(r);
+    let contents: Vec<u8> = b1.iter().copied().collect();
+    let got = run(b1);
+    let mut b2: Box<B<N>> = Box::new(B::<N>::new());
+    for &x in &contents {
+        b2.push_back(x);
+    }
+    let want = run(b2);
+    if got == want {
+        return None;
+    }
+    let at = got.iter().zip(want.iter()).position(|(a, b)| a != b).unwrap_or(got.len().min(want.len()));
+    Some(format!(
+        "equal contents {:?}, different behaviour at step {} of <{}; hash; pop_front; push_back; try_push_front; read(1); write; consume(1); pop_back; write(N); hash; read(N)>: after this history: {:?}; after push_back alone: {:?}",
+        contents, at, act.show(), got.get(at), want.get(at)
+    ))
+}
+
+pub fn replay_u8_twin<const N: usize>(c: &Case) -> Result<i32, String> {
+    let recipe = parse_recipe(&c.recipe).ok_or("bad recipe")?;
+    let act = IoAct::parse(&c.act).ok_or("bad action")?;
+    println!("N={} CircularBuffer<N,u8> state <{}> {}", N, show_recipe(&recipe), act.show());
+    let mut code = 0;
+    if c.prop == "C04" {
+        if let Some(p) = c04_pair::<N>(&recipe, &act) {
+            println!("VIOLATION REPRODUCED: {}", p);
+            code = 1;
+        }
+    } else {
+        let (o0, c0, _k, p0, _) = io_case::<N>(&recipe, &act, default_via());
+        println!("  observed {:?}, contents after {:?}", o0, c0);
+        for p in &p0 {
+            if c.prop != "C11" || p.contains("panicked") {
+                println!("VIOLATION REPRODUCED: {}", p);
+                code = 1;
+            }
+        }
+    }
+    Ok(code)
+}
+
+/// The `CircularBuffer<N, u8>` twin of the element-level checks: the byte-I/O trait impls are operations of the
+/// buffer too, and they move the front position by their own code.  The byte space (BFS to fixpoint over the I/O
+/// alphabet incl. push/pop/try_push) is judged here for
+///  * C01: the deque actions (and `Extend<&u8>`) against the sequence model,
+///  * C02: push / try_push only,
+///  * C11: no call panics, whatever I/O history led to the state,
+///  * C04: model-free — every action from every reachable state gives the same observation, the same contents and
+///    the same follow-up observations as from a buffer with equal contents built by `push_back` alone.
+pub fn u8_twin<const N: usize>(prop: &str, rep: &mut Report) {
     let mut viols: Vec<(Vec<IoAct>, IoAct, String)> = vec![];
     let mut n = 0u64;
     let sp = io_explore::<N>(default_via(), |r, act, _obs, _contents, _key, probs| {
-        if !act.is_io() {
+        let mine = match prop {
+            "C01" => !act.is_io(),
+            "C02" => matches!(act, IoAct::PushBack | IoAct::PushFront | IoAct::TryPushBack | IoAct::TryPushFront),
+            "C11" => true,
+            _ => false,
+        };
+        if mine {
             n += 1;
             for p in probs {
-                viols.push((r.to_vec(), *act, p.clone()));
+                if prop != "C11" || p.contains("panicked") {
+                    viols.push((r.to_vec(), *act, p.clone()));
+                }
             }
         }
     });
+    if prop == "C04" {
+        let mut acts = io_alphabet(N);
+        acts.push(IoAct::HashIt);
+        for r in &sp.recipes {
+            for act in &acts {
+                crate::set_case(&format!("n={}|ctor=new|recipe={}|filling=none|act={}|fault=none|extra=io", N, recipe_str(r), act.show()));
+                n += 1;
+                if let Some(p) = c04_pair::<N>(r, act) {
+                    viols.push((r.to_vec(), *act, p));
+                }
+            }
+        }
+    }
     rep.transitions += n;
     rep.validated += n;
     rep.evaluations += n;
     rep.nontrivial += n / 2;
-    *rep.by_action.entry("extend_ref(u8 twin)".into()).or_insert(0) += n;
+    *rep.by_action.entry("CircularBuffer<N,u8> twin (byte I/O histories)".into()).or_insert(0) += n;
     rep.count("u8_twin_states", sp.recipes.len() as u64);
     for (r, act, p) in viols {
         rep.violation(Violation {
